@@ -1,7 +1,7 @@
 #!/usr/bin/env python3
 """selftest/run.py [Cxx ...]  - binding demo for every trace specification (not a registered check).
 
-For each given check (default: all of C01..C20 and the extras X01..X07) the quick tier is run once with
+For each given check (default: all of C01..C20 and the extras X01..X08) the quick tier is run once with
 VERIF_DUMP_TRACES, which keeps a sample of the traces each trace module validated.  Then, per module:
 
   1. the sampled traces are validated again        -> all must be accepted (or be listed known findings);
@@ -78,7 +78,7 @@ def verdict(module, cfg, trace):
 
 
 def main():
-    checks = [a.upper() for a in sys.argv[1:]] or ["C%02d" % i for i in range(1, 21)] + ["X01", "X02", "X03", "X04", "X05", "X06", "X07"]
+    checks = [a.upper() for a in sys.argv[1:]] or ["C%02d" % i for i in range(1, 21)] + ["X01", "X02", "X03", "X04", "X05", "X06", "X07", "X08"]
     rng = random.Random(0)
     report, bad = {}, []
     with tempfile.TemporaryDirectory(prefix="skaml-selftest-") as tmp:
